@@ -339,6 +339,8 @@ def describe_discr(fn, switch_block, transparent=TRANSPARENT):
     t = fn.blocks[switch_block]["t"]
     op = t[1]
     if op[0] == "c": return ("const", op[1])
+    if len(op[1]) > 1 and any(not isinstance(e, str) for e in op[1][1:]):
+        return ("place", op[1])          # `switchInt(copy ((*_1).f as Some).0)`: the tested value is a projection, not a local
     return _describe_place(fn, op[1], transparent, 0)
 
 def _describe_place(fn, place, transparent, depth):
